@@ -146,6 +146,7 @@ type lsSummary struct {
 	entry     lockset
 	exit      lockset         // lock set at return (meet over returns), nil until computed
 	acq       map[string]byte // locks possibly acquired (transitively); 'W' dominates
+	acqHeld   map[string]bool // locks acquired (transitively) while already held in this context
 	callers   map[fnCtx]bool
 	rootCtx   bool
 	live      bool
@@ -162,6 +163,7 @@ type lockEdge struct {
 	Pos        token.Pos
 	Via        string
 	Root       string // entry point of the calling context
+	Held       lockset // locks held (must, over all recordings) when To is acquired
 }
 
 type heldRec struct {
@@ -349,7 +351,7 @@ func (la *LockAnalysis) ctxFor(callee *ssa.Function, consts map[int]bool, entry 
 	k := fnCtx{callee, sig, entry.String()}
 	s := la.sums[k]
 	if s == nil {
-		s = &lsSummary{key: k, consts: consts, entry: entry.clone(), callers: map[fnCtx]bool{}, parent: caller, parentPos: pos, acq: map[string]byte{}, rootCtx: caller == nil, late: la.recording}
+		s = &lsSummary{key: k, consts: consts, entry: entry.clone(), callers: map[fnCtx]bool{}, parent: caller, parentPos: pos, acq: map[string]byte{}, acqHeld: map[string]bool{}, rootCtx: caller == nil, late: la.recording}
 		la.sums[k] = s
 		la.order = append(la.order, s)
 		la.reached[callee] = true
@@ -818,10 +820,16 @@ func (la *LockAnalysis) handleCall(s *lsSummary, cc *ssa.CallCommon, ins ssa.Ins
 		}
 		switch op {
 		case "Lock":
+			if _, h := cur[id]; h {
+				s.acqHeld[id] = true
+			}
 			la.edge(s, cur, id, 'W', f, ins.Pos(), "")
 			cur[id] = 'W'
 			addAcq(id, 'W')
 		case "RLock":
+			if _, h := cur[id]; h {
+				s.acqHeld[id] = true
+			}
 			la.edge(s, cur, id, 'R', f, ins.Pos(), "")
 			if cur[id] != 'W' {
 				cur[id] = 'R'
@@ -865,6 +873,16 @@ func (la *LockAnalysis) handleCall(s *lsSummary, cc *ssa.CallCommon, ins ssa.Ins
 			// callback) usually operates on a different object, and lock identity
 			// here is per type, not per instance
 			for id, m := range cs.acq {
+				// a lock the caller holds: only a re-acquisition if the callee takes it while it is
+				// still held there (not after handing it off: UpdateClock unlocks clockMx and
+				// read-locks it later for the subscriptions)
+				if _, heldNow := cur[id]; heldNow {
+					if !cs.acqHeld[id] {
+						addAcq(id, m)
+						continue
+					}
+					s.acqHeld[id] = true
+				}
 				la.edge(s, cur, id, m, f, ins.Pos(), funcKey(cal))
 				addAcq(id, m)
 			}
@@ -939,8 +957,14 @@ func (la *LockAnalysis) edge(s *lsSummary, cur lockset, to string, toM byte, f *
 			continue
 		}
 		k := fmt.Sprintf("%s:%c>%s:%c@%s", from, fm, to, toM, rk)
-		if _, ok := la.edges[k]; !ok {
-			la.edges[k] = &lockEdge{From: from, To: to, FromM: fm, ToM: toM, Fn: f, Pos: pos, Via: via, Root: rk}
+		if e, ok := la.edges[k]; !ok {
+			la.edges[k] = &lockEdge{From: from, To: to, FromM: fm, ToM: toM, Fn: f, Pos: pos, Via: via, Root: rk, Held: cur.clone()}
+		} else {
+			for id, m := range e.Held {
+				if m2, ok := cur[id]; !ok || m2 != m {
+					delete(e.Held, id)
+				}
+			}
 		}
 	}
 }
